@@ -161,6 +161,7 @@ def run(ck, an, tier):
     sub_returns_allocation(ck, an, "S4")
     allocation_filters(ck, an, "S5")
     trade_guards(ck, an, "S5")
+    plumbing(ck, an)
 
 
 def _p(s):
@@ -214,3 +215,54 @@ def trade_guards(ck, an, prefix):
             continue
         first_unguarded = [st for st in stores if not fa.all_paths_to_pass(st, tests)][:1] or stores[:1]
         ord_before(ck, fa, f"{prefix}.trade-rejects-{name}", tests, first_unguarded, f"the {name} rejection", "every attribute store")
+
+
+def plumbing(ck, an):
+    """The configured threshold / whole-lot flag reach Rebalancing unchanged, for every measure."""
+    fa = an.fa("PortfolioSpace.make_rebalancing_request")
+    calls = [c for c in fa.calls_to("Rebalancing.__init__") if isinstance(c, ast.Call)]
+    for c in calls:
+        kw = {k.arg: fa.sym.canon(k.value) for k in c.keywords}
+        ck.check(kw.get("margin") == "self._margin", "ARGFLOW", "S1.threshold-reaches-request", fa.f.short, fa.loc(c), "the request carries the space's threshold", f"Rebalancing(margin={kw.get('margin')})", construct="margin=" + str(kw.get("margin")))
+        ck.check(kw.get("fractional") == "self._fractional", "ARGFLOW", "S3.lot-mode-reaches-request", fa.f.short, fa.loc(c), "the request carries the space's whole-lot flag", f"Rebalancing(fractional={kw.get('fractional')})",
+                 construct="fractional=" + str(kw.get("fractional")))
+    if not calls:
+        ck.fail("ARGFLOW", "S1.threshold-reaches-request", fa.f.short, fa.f.loc, "no Rebalancing(...) built", construct="missing:Rebalancing")
+    fi = an.fa("PortfolioSpace.__init__")
+    for attr, src in (("_margin", "margin"), ("_fractional", "fractional"), ("_as_weights", "as_weights")):
+        st = assigns_to_attr(fi, attr)
+        ck.check(len(st) == 1 and isinstance(st[0], ast.Assign) and fi.sym.canon(st[0].value) == src, "ARGFLOW", f"S1.space-stores-{src}", fi.f.short, fi.f.loc, f"PortfolioSpace.{attr} is the constructor argument {src}",
+                 f"PortfolioSpace.{attr} = {[ast.unparse(x.value) for x in st if isinstance(x, ast.Assign)]}", construct=f"self.{attr} = {src}")
+        own_writers(ck, an, f"S1.space-{src}-fixed", "PortfolioSpace", attr, {"PortfolioSpace.__init__"}, min_sites=1)
+    fr = an.fa("Rebalancing.__init__")
+    for attr in ("margin", "fractional"):
+        st = assigns_to_attr(fr, attr)
+        ck.check(len(st) == 1 and isinstance(st[0], ast.Assign) and fr.sym.canon(st[0].value) == attr, "ARGFLOW", f"S1.request-stores-{attr}", fr.f.short, fr.f.loc, f"Rebalancing.{attr} is the constructor argument",
+                 f"Rebalancing.{attr} = {[ast.unparse(x.value) for x in st if isinstance(x, ast.Assign)]}", construct=f"self.{attr} = {attr}")
+    subclass_ctor_plumbing(ck, an, "S1")
+
+
+def subclass_ctor_plumbing(ck, an, prefix):
+    """Every concrete space forwards contracts / as_weights / fractional / margin to PortfolioSpace.__init__ under the same name."""
+    base = an.prog.func("PortfolioSpace.__init__")
+    ps = an.prog.cls("PortfolioSpace")
+    for c in an.prog.subclasses(ps):
+        if c.module.name.startswith("_fixture") or "__init__" not in c.methods:
+            continue
+        fa = an.fa(c.methods["__init__"])
+        calls = [x for x in fa.calls_named("__init__") if ast.unparse(x.func) in ("PortfolioSpace.__init__", "super().__init__")]
+        if not calls:
+            ck.fail("ARGFLOW", f"{prefix}.space-ctor-plumbing", fa.f.short, fa.f.loc, f"{c.name}.__init__ does not call PortfolioSpace.__init__", construct="PortfolioSpace.__init__(...)")
+            continue
+        for x in calls:
+            args = list(x.args)
+            off = 1 if ast.unparse(x.func) == "PortfolioSpace.__init__" else 0
+            bound = {}
+            for i, a in enumerate(args[off:]):
+                if 1 + i < len(base.params):
+                    bound[base.params[1 + i]] = ast.unparse(a)
+            for k in x.keywords:
+                bound[k.arg] = ast.unparse(k.value)
+            bad = {p: v for p, v in bound.items() if v != p}
+            ck.check(not bad, "ARGFLOW", f"{prefix}.space-ctor-plumbing", fa.f.short, fa.loc(x), f"{c.name} forwards {sorted(bound)} to PortfolioSpace.__init__ under the same names",
+                     f"{c.name}.__init__ binds PortfolioSpace.__init__ parameters to other arguments: {bad}", construct=stmt_text(x))
